@@ -257,7 +257,11 @@ def check_stream(site, text, pieces, zwe_payloads, v):
         bad("output bypassed write/write_raw", "stream is not the concatenation of the recorded pieces")
     zre = None
     if zwe_payloads:
-        zre = re.compile("(?:" + "|".join(re.escape(z) for z in sorted(set(zwe_payloads), key=len, reverse=True)) + ")+")
+        # zero_width_escapes[y][x] += text concatenates payloads; horizontal scrolling explodes a marked
+        # fragment and may drop a prefix of it, so a raw piece is a concatenation of payload suffixes
+        sufs = {z[i:] for z in zwe_payloads for i in range(len(z))}
+        zre = re.compile("(?:" + "|".join(re.escape(z) for z in sorted(sufs, key=len, reverse=True)) + ")+") \
+            if sufs else None
     for kind, p in pieces or []:
         if kind == "w":
             if "\x1b" in p:
